@@ -383,9 +383,24 @@ def seed_jobs(pid=None, root="/repo"):
 
 
 def run_jobs(js, root, seeds=()):
-    with concurrent.futures.ProcessPoolExecutor(max_workers=min(16, os.cpu_count() or 4)) as ex:
-        a = list(ex.map(_run_one, [j + (root,) for j in js]))
-        b = list(ex.map(_run_seed, list(seeds)))
+    import shutil
+    import tempfile
+    # scratch directory for the evaluation memo (rules_k._memo), shared by the workers of this run only
+    cache = tempfile.mkdtemp(prefix="sa-eval-cache-")
+    old = {k: os.environ.get(k) for k in ("SA_EVAL_CACHE", "SA_NO_POOL")}
+    os.environ["SA_EVAL_CACHE"] = cache
+    os.environ["SA_NO_POOL"] = "1"
+    try:
+        with concurrent.futures.ProcessPoolExecutor(max_workers=min(16, os.cpu_count() or 4)) as ex:
+            a = list(ex.map(_run_one, [j + (root,) for j in js]))
+            b = list(ex.map(_run_seed, list(seeds)))
+    finally:
+        for k, v in old.items():
+            if v is None:
+                os.environ.pop(k, None)
+            else:
+                os.environ[k] = v
+        shutil.rmtree(cache, ignore_errors=True)
     return a + b
 
 
